@@ -454,11 +454,12 @@ def judge(ctx, recs, what, constants=None, _twin=False):
 
 
 # ---- larger seeded cases (code -> spec) -----------------------------------------------------------
-def seeded_cases(rng, n, maxlen):
+def seeded_cases(rng, n, maxlen, heavy):
+    """heavy: number of long equal-occupancy cases (nperbin 49 / 98, n up to 101: costly to judge in TLC)"""
     out = []
     for kk in range(n):
         weighted = rng.random() < 0.5
-        if kk % 8 in (0, 4):
+        if kk % 8 == 4 or (kk % 8 == 0 and kk < 8 * heavy):
             # bin arithmetic with inexact reciprocals: equal-occupancy bins whose size has a reciprocal that rounds down
             # (positions k*nperbin must still open bin k), and data exactly on the edges of such bin sizes
             rep = {"x": rng.choice(REPS), "y": rng.choice(REPS), "w": "f8"}
@@ -565,7 +566,7 @@ def run(ctx):
     nreps_exported = len(reps_seen)
     # 3. larger seeded cases (code -> spec)
     nrand, maxlen = (600, 40) if ctx.quick else (12000, 60)
-    sc = seeded_cases(random.Random(ctx.seed), nrand, maxlen)
+    sc = seeded_cases(random.Random(ctx.seed), nrand, maxlen, 40 if ctx.quick else 160)
     nseed = batch([(nrec + 1 + i, cse, (ctx.seed + i) % len(CONC)) for i, cse in enumerate(sc)],
                   "judge seeded larger cases (BinStatsTrace)")
     # 4. binding self-test and structure census (vacuity guards)
